@@ -210,7 +210,7 @@ def state_round_trip(ctx):
               'type() no longer maps _Name to the factory Name', ty, ty.node)
 
 
-@rule('C10.b', min_instances=6)
+@rule('C10.b', min_instances=5)
 def compound_conditions(ctx):
     """When/And: all(member results); Or: any(member results) with unsatisfied members dropped before reporting; every member is evaluated"""
     W = ctx.cls(TM + ':When')
@@ -218,41 +218,23 @@ def compound_conditions(ctx):
     O = ctx.cls(TM + ':Or')
     ctx.check('__call__' not in A.methods and W in ctx.model.mro(A), 'And', 'And inherits When.__call__ (all members)',
               'And no longer uses When.__call__', A.methods.get('__new__'), A.node)
-    for cls, agg in ((W, 'all'), (O, 'any')):
+    # behavioural summaries against reference transcriptions (comprehension-vs-loop, renamed locals, temporaries and
+    # conditional-expression-vs-early-return spellings are absorbed by the normal forms)
+    from .c10_refs import REFS
+    from .. import siblings as SB
+    for cls, agg, what in ((W, 'all', 'every member evaluated with (solver, info); all(results); info answers empty unless all are satisfied'),
+                           (O, 'any', 'every member evaluated with (solver, info); any(results); unsatisfied members dropped before the info answers')):
         f = cls.methods.get('__call__')
         ctx.need(f is not None, '%s.__call__ vanished' % cls.name)
         ctx.touch(f)
-        sn = selfname_of(f)
-        body = f.node.body
-        # stop = {f: f(solver, info) for f in self}
-        fill = [s for s in body if isinstance(s, ast.Expr) and isinstance(s.value, ast.ListComp)
-                and ''.join(unparse(s.value.elt).split()) == 'stop.update({f:f(solver,info)})']
-        ok_fill = bool(fill) and ''.join(unparse(fill[0].value.generators[0].iter).split()) == sn and not fill[0].value.generators[0].ifs
-        ctx.check(ok_fill, cls.name + '.__call__#members', 'every member is evaluated with (solver, info)',
-                  'not every member condition is evaluated', f, fill[0] if fill else f.node)
-        aggs = [s for s in body if isinstance(s, ast.Assign) and isinstance(s.value, ast.Call) and callee_text(s.value) in ('all', 'any')
-                and ''.join(unparse(s.value.args[0]).split()) == 'stop.values()']
-        ok_agg = len(aggs) == 1 and callee_text(aggs[0].value) == agg
-        var = aggs[0].targets[0].id if aggs and isinstance(aggs[0].targets[0], ast.Name) else None
-        ctx.check(ok_agg, cls.name + '.__call__#aggregate', 'result = %s(member results)' % agg,
-                  '%s aggregates its members with %s' % (cls.name, callee_text(aggs[0].value) if aggs else None), f, aggs[0] if aggs else f.node)
-        rets = [s for s in walk_no_nested(f.node) if isinstance(s, ast.Return)]
-        plain = [r for r in rets if guards_of(r, stop=f.node) and ''.join(unparse(guards_of(r, stop=f.node)[0][0]).split()) == 'notinfo']
-        ctx.check(bool(plain) and unparse(plain[0].value) == var, cls.name + '.__call__#bool', 'info=False returns the aggregate',
-                  'with info=False %s returns %s' % (cls.name, unparse(plain[0].value) if plain else None), f, plain[0] if plain else f.node)
-        if cls is W:
-            others = [r for r in rets if r not in plain and isinstance(r.value, ast.IfExp)]
-            good = len(others) >= 2 and all(isinstance(r.value.test, ast.Name) and r.value.test.id == var for r in others) and \
-                all(unparse(r.value.orelse) in ('()', "''") for r in others)
-            ctx.check(good, 'When.__call__#info', 'info answers are empty unless all members are satisfied',
-                      'When reports members although not all are satisfied', f, others[0] if others else f.node)
-        else:
-            pops = [s for s in body if isinstance(s, ast.Expr) and isinstance(s.value, ast.ListComp)
-                    and ''.join(unparse(s.value.elt).split()) == 'stop.pop(cond)']
-            ok_pop = bool(pops) and [''.join(unparse(i).split()) for i in pops[0].value.generators[0].ifs] == ['notmet']
-            later = [r for r in rets if r not in plain and pops and r.lineno > pops[0].lineno]
-            ctx.check(ok_pop and len(later) >= 2, 'Or.__call__#info', 'unsatisfied members are dropped before the info answers are built',
-                      'Or names members that are not satisfied', f, pops[0] if pops else f.node)
+        got = SB.summary(f.node)
+        want = SB.summary_of_source(REFS['%s:%s.__call__' % (TM, cls.name)])
+        ctx.stats['terms_compared'] += len(got)
+        ctx.check(got == want, cls.name + '.__call__', what, '%s.__call__ evaluates or reports its members differently: %s' % (cls.name, SB.diff(got, want)), f, f.node)
+        # the aggregate itself, as a separate fact (the most important one)
+        aggs = [c for c in calls_where(f.node, lambda c: callee_text(c) in ('all', 'any'), include_lambda=False)]
+        ctx.check(bool(aggs) and all(callee_text(c) == agg for c in aggs), cls.name + '.__call__#aggregate', 'result = %s(member results)' % agg,
+                  '%s aggregates its members with %s' % (cls.name, sorted(set(callee_text(c) for c in aggs))), f, aggs[0] if aggs else f.node)
 
 
 @rule('C10.f', min_instances=3)
